@@ -406,6 +406,20 @@ def owners(mm):
     if act in PAIR_OWNER:
         return pair_owners(mm)
     if kind == "pre":
+        # the path to the row's state did not reproduce it: blame by what differs
+        try:
+            exp, got = mm["expected"], mm["got"]
+            if exp["t"] == got["t"]:
+                o = set()
+                if exp["x"][:2] != got["x"][:2]:
+                    o.add("C16")
+                if exp["x"][2] != got["x"][2]:
+                    o.add("C04")
+                return o or {"C01"}
+            if tree_entries(exp["t"]) == tree_entries(got["t"]):
+                return {"C15"}
+        except Exception:
+            pass
         return {"C01"}
     if kind == "ret":
         o = {RET_OWNER.get(act, "C01")}
